@@ -100,8 +100,11 @@ def S_from_bytes_native(n):
         dom = AND(*[lt(x, 256) for x in I[:n]])
         if n <= 31:
             return AND(dom, eq(O[0], e.named_sum([(256 ** i, x) for i, x in enumerate(I[:n])])))
-        # 32 bytes: only canonical encodings (< p) are accepted
-        return AND(dom, eq(O[0], e.named_sum([(256 ** i, x) for i, x in enumerate(I[:n])])))
+        # 32 bytes and more: the integer is reduced modulo p on both sides (off-circuit `big_to_fe` reduces,
+        # in-circuit `assigned_from_le_bytes` is a linear combination in the field); the documentation says
+        # "the bytes are interpreted as an integer": non-canonical encodings are NOT rejected.
+        tot = e.named_sum([(256 ** i, x) for i, x in enumerate(I[:n])])
+        return AND(dom, f"(= {O[0]} (mod {tot} {csmt.P_BLS}))")
     return spec
 
 
